@@ -5,8 +5,11 @@ mod c01;
 mod c02;
 mod c03;
 mod c04;
+mod c05;
 mod c06;
 mod c07;
+mod c10;
+mod c11;
 mod common;
 mod lifecycle;
 
@@ -22,8 +25,11 @@ fn main() {
         "C02" => vsched::report::run_property(rest, &c02::plan),
         "C03" => vsched::report::run_property(rest, &c03::plan),
         "C04" => vsched::report::run_property(rest, &c04::plan),
+        "C05" => vsched::report::run_property(rest, &c05::plan),
         "C06" => vsched::report::run_property(rest, &c06::plan),
         "C07" => vsched::report::run_property(rest, &c07::plan),
+        "C10" => vsched::report::run_property(rest, &c10::plan),
+        "C11" => vsched::report::run_property(rest, &c11::plan),
         _ => {
             eprintln!("unknown property {prop}");
             2
